@@ -181,6 +181,8 @@ impl Trace {
             ("dtag", jstr(cfg.dtag)),
             ("store", jstr(cfg.store.name())),
             ("dlay", jstr(cfg.data.lay.name())),
+            ("xlay", jstr(cfg.x.map(|r| r.lay.name()).unwrap_or("-"))),
+            ("ylay", jstr(cfg.y.map(|r| r.lay.name()).unwrap_or("-"))),
             ("st", strat2_json(strat)),
             ("out", jstr(out)),
             ("msg", jstr(msg)),
